@@ -297,6 +297,32 @@ def token_line_rules(ctx: Ctx, rid: str) -> None:
         ok = isinstance(nxt, ast.AugAssign) and ast.unparse(nxt.target) == "lineno" and isinstance(nxt.op, ast.Add) and f"{textvar}.count('\\n')" in ast.unparse(nxt.value)
         ctx.check(ok, f"yield:{textvar}:{y.lineno}", "lexer:Lexer.tokeniter", f"line count after yielding {textvar}",
                   f"after `yield lineno, ..., {textvar}` the next statement must be `lineno += {textvar}.count('\\n')` (found `{ast.unparse(nxt)[:60] if nxt is not None else None}`): later tokens would carry wrong line numbers", ti.loc(y), detail={"yield": ast.unparse(y)[:60]})
+    # the count follows the text *consumed*, whether or not a token is reported for it (an
+    # empty ignorable group is not yielded, but the newlines removed in front of it still
+    # passed): the update sits in the same block as the binding of the text, with nothing
+    # in between that can skip it
+    ups = [n for n in ast.walk(ti.node) if isinstance(n, ast.AugAssign) and ast.unparse(n.target) == "lineno"]
+    ctx.floor("lineno updates in tokeniter", len(ups), 3)
+    for u in ups:
+        m_ = [x for x in ast.walk(u.value) if isinstance(x, ast.Call) and isinstance(x.func, ast.Attribute) and x.func.attr == "count" and isinstance(x.func.value, ast.Name)]
+        if not m_:
+            continue
+        var = m_[0].func.value.id  # type: ignore[attr-defined]
+        par = getattr(u, "_parent", None)
+        seq = next((getattr(par, f) for f in ("body", "orelse", "finalbody") if isinstance(getattr(par, f, None), list) and any(x is u for x in getattr(par, f))), None)
+        ctx.need(seq is not None, "lineno update without a statement list")
+        k = [i for i, x in enumerate(seq) if x is u][0]
+        binds = [i for i, x in enumerate(seq[:k]) if isinstance(x, ast.Assign) and any(isinstance(t_, ast.Name) and t_.id == var for t_ in x.targets)]
+        bound_elsewhere = [a for a in ast.walk(ti.node) if isinstance(a, ast.Assign) and any(isinstance(t_, ast.Name) and t_.id == var for t_ in a.targets)]
+        if not bound_elsewhere:
+            continue  # loop variable of the #bygroup search: counted right after its yield (rule above)
+        if not binds:
+            ctx.check(False, f"lineno:{var}:same-block", "lexer:Lexer.tokeniter", f"count of `{var}` not in the block that binds it",
+                      f"`lineno += {var}.count(...)` is nested below a condition that the binding `{var} = ...` is not under: text that is consumed but not reported (an empty group after '-' stripping) is never counted, and every later token carries a too small line number", ti.loc(u))
+            continue
+        skipping = [x for st_ in seq[binds[-1] + 1:k] for x in ast.walk(st_) if isinstance(x, (ast.Continue, ast.Break, ast.Return))]
+        ctx.check(not skipping, f"lineno:{var}:no-skip", "lexer:Lexer.tokeniter", f"count of `{var}` can be skipped by {[type(x).__name__ for x in skipping]}",
+                  f"between `{var} = ...` and `lineno += {var}.count(...)` a {[type(x).__name__.lower() for x in skipping]} can leave the block: the consumed text (and the newlines stripped by '-') is then not counted and later tokens carry wrong line numbers", ti.loc(u))
     s = ast.unparse(ti.node)
     ns = [n for n in ast.walk(ti.node) if isinstance(n, ast.Assign) and ast.unparse(n.targets[0]) == "newlines_stripped"]
     vals = sorted(ast.unparse(n.value) for n in ns)
